@@ -1,6 +1,8 @@
 package main
 
 import (
+	"fmt"
+
 	"verifharness/engine"
 )
 
@@ -9,6 +11,8 @@ func init() {
 }
 
 func runCrash(rep *Report) {
+	tw, doneTw := traceWriter()
+	defer doneTw()
 	tot := engine.CrashStats{}
 	for i := 0; i < *fN; i++ {
 		if !startProgram(i) {
@@ -25,6 +29,9 @@ func runCrash(rep *Report) {
 		}
 		s := engine.RunProgram(r, cfg, p)
 		s.Finish()
+		if tw != nil {
+			fmt.Fprintf(tw, "program %d seed=%d\n%send\n", i, ps, s.CrashTrace())
+		}
 		bits, cuts, maxImg := 7, 12, 6000
 		if *fTier == "thorough" {
 			bits, cuts, maxImg = 10, 83, 60000
